@@ -46,6 +46,10 @@ struct Scenario {
 	stage: Stage,
 	others: u32, // 0: none, 1: another pending sent in same account, 2: + a pending received + one in another account
 	addr: Addr,
+	/// wallet A is first replaced by a copy restored from its seed by a chain scan (its outputs
+	/// then carry an MMR index, which is part of their storage key)
+	#[serde(default)]
+	restored: bool,
 }
 
 #[derive(Clone, Debug, Serialize, Deserialize)]
@@ -271,8 +275,24 @@ fn cancelled_type(t: &str) -> &'static str {
 }
 
 /// run one scenario; Ok(label) or Err(key, what)
+/// replace wallet A of the world in `dir` by a wallet restored from the same seed with a full scan
+fn restore_a_in_place(dir: &str) {
+	let mut w = World::open(dir);
+	w.add_wallet("R", "A");
+	w.w("R").scan(None, false).unwrap();
+	w.meta.wallets.remove("R");
+	w.close();
+	let a = WalletH::data_dir(dir, "A");
+	let r = WalletH::data_dir(dir, "R");
+	std::fs::remove_dir_all(&a).unwrap();
+	std::fs::rename(&r, &a).unwrap();
+}
+
 fn run_scenario(dir: &str, base: &Snapshot, sc: &Scenario) -> Result<String, (String, String)> {
 	base.restore(dir);
+	if sc.restored {
+		restore_a_in_place(dir);
+	}
 	let w = World::open(dir);
 	let r = run_scenario_inner(&w, sc);
 	w.close();
@@ -594,7 +614,12 @@ fn scenarios(thorough: bool) -> Vec<Scenario> {
 						if *kind == Kind::SentSpendingUnconfirmed && *change_n == 0 {
 							continue;
 						}
-						v.push(Scenario { kind: *kind, change_n: *change_n, stage: *stage, others: *others, addr: *addr });
+						v.push(Scenario { kind: *kind, change_n: *change_n, stage: *stage, others: *others, addr: *addr, restored: false });
+						// the same on a wallet restored from its seed (accounts other than the default one are
+						// restored under generated labels: scenarios that name "acct1" are left out)
+						if *others < 2 && matches!(kind, Kind::Sent | Kind::InvoicePayer | Kind::LateLocked) && *stage != Stage::Mid {
+							v.push(Scenario { kind: *kind, change_n: *change_n, stage: *stage, others: *others, addr: *addr, restored: true });
+						}
 					}
 				}
 			}
